@@ -339,6 +339,24 @@ def _check_batch(acc, method, shape, vals, bs, nseeds, seed0):
                 acc.violation(subj, "indices_depend_on_return_utilities", "%s vs %s" % (r3, r2[0]), wit, replay=rep, size=len(vals))
         except ValueError:
             pass
+        if s == seed0 and method == "max" and not has_inf:
+            # the same values in a buffer that is neither C- nor F-contiguous (every second element / column of a larger array)
+            if u.ndim == 1:
+                buf = np.zeros(2 * u.shape[0] + 1)
+                v = buf[1::2][: u.shape[0]]
+            else:
+                buf = np.zeros((u.shape[0], 2 * u.shape[1] + 1))
+                v = buf[:, 1::2][:, : u.shape[1]]
+            v[...] = u
+            try:
+                rv = S.simple_batch(v, random_state=np.random.RandomState(s), batch_size=bs, return_utilities=True, method=method)
+                acc.transitions += 1
+                if not (np.array_equal(rv[0], r2[0]) and np.array_equal(rv[1], r2[1], equal_nan=True)):
+                    acc.violation(subj, "depends_on_memory_layout", "strided input: indices %s rows %s; contiguous input: indices %s rows %s" % (
+                        np.asarray(rv[0]).tolist(), np.asarray(rv[1]).tolist(), np.asarray(r2[0]).tolist(), np.asarray(r2[1]).tolist()), wit, replay=rep, size=len(vals))
+            except ValueError:
+                if not rejected_ok:
+                    acc.violation(subj, "unexpected_exception", "strided input raised", wit, replay=rep, size=len(vals))
         if method == "max":
             # conformance: observe the real tie choices, replay them in the substituted environment
             tp = T.Tape()
